@@ -1,1 +1,809 @@
+//! The simulated payment terminal (DESIGN §7): speaks ZVT through the
+//! reference codec only, keeps a ledger of pre-authorisations, follows a plan
+//! (outcomes, reported values, delays, faults addressed by packet position)
+//! and records a per-connection event log with virtual timestamps.
 
+use refcodec::codec::Codec;
+use refcodec::layout::{Card, Enc, Schema, StructDef};
+use refcodec::val::Val;
+use std::collections::{BTreeMap, VecDeque};
+use std::net::{Ipv4Addr, SocketAddrV4};
+use std::sync::{Arc, Mutex};
+use tokio::io::{AsyncReadExt, AsyncWriteExt, DuplexStream};
+use zvt_feig_terminal::verif_hook::{ConnectFuture, Connector, VerifIo};
+
+// ---------------------------------------------------------------- value helpers
+
+/// A struct value with every optional field absent, lists empty, numbers 0, text "".
+pub fn blank(schema: &Schema, def: &StructDef) -> Val {
+    Val::Struct(
+        def.fields
+            .iter()
+            .map(|f| {
+                let v = match f.card {
+                    Card::Opt => Val::none(),
+                    Card::Many => Val::List(vec![]),
+                    Card::One => match &f.enc {
+                        Enc::Int { .. } | Enc::Bcd(_) | Enc::Rcpt => Val::Num(0),
+                        Enc::Cp437 | Enc::Utf8 => Val::Text(String::new()),
+                        Enc::Hex => Val::Hex(String::new()),
+                        Enc::Bytes => Val::Bytes(vec![]),
+                        Enc::DateTime => Val::DateTime([2000, 1, 1, 0, 0, 0]),
+                        Enc::Struct(k) => blank(schema, schema.get(k)),
+                    },
+                };
+                (f.name.clone(), v)
+            })
+            .collect(),
+    )
+}
+
+/// Set `field` of a struct value; wraps in Some(..) when the field is optional.
+pub fn set(schema: &Schema, def: &StructDef, v: &mut Val, field: &str, new: Val) {
+    let f = def.fields.iter().find(|f| f.name == field).unwrap_or_else(|| panic!("sim: no field {field} in {}", def.key));
+    let slot = v.field_mut(field).unwrap();
+    *slot = match f.card {
+        Card::Opt => Val::some(new),
+        _ => new,
+    };
+    let _ = schema;
+}
+
+pub struct Enc0<'a> {
+    pub schema: &'a Schema,
+}
+
+impl<'a> Enc0<'a> {
+    pub fn make(&self, key: &str, fields: &[(&str, Val)]) -> Val {
+        let def = self.schema.get(key);
+        let mut v = blank(self.schema, def);
+        for (n, x) in fields {
+            set(self.schema, def, &mut v, n, x.clone());
+        }
+        v
+    }
+    pub fn bytes(&self, key: &str, v: &Val) -> Vec<u8> {
+        Codec::new(self.schema).encode(self.schema.get(key), v).unwrap_or_else(|e| panic!("sim: cannot encode {key}: {e:?} {v:?}"))
+    }
+    pub fn packet(&self, key: &str, fields: &[(&str, Val)]) -> Vec<u8> {
+        self.bytes(key, &self.make(key, fields))
+    }
+}
+
+// ---------------------------------------------------------------- plan
+
+#[derive(Clone, Debug, PartialEq)]
+pub enum Pre {
+    Intermediate { status: u8, timeout: u8 },
+    PrintLine(String),
+    PrintTextBlock,
+    /// a status information without receipt number
+    PlainStatus,
+    /// a status information carrying this receipt number
+    ReceiptStatus(u64),
+}
+
+#[derive(Clone, Debug, PartialEq)]
+pub enum ExResult {
+    Normal,
+    Abort(u8),
+    /// reservation: status information without a receipt number
+    NoReceipt,
+    /// no status information at all
+    NoStatus,
+}
+
+/// Values the terminal reports in its status information.
+#[derive(Clone, Debug, PartialEq, Default)]
+pub struct StatusFields {
+    pub amount: Option<u64>,
+    pub trace_number: Option<u64>,
+    pub date: Option<u64>,
+    pub time: Option<u64>,
+    pub terminal_id: Option<u64>,
+    pub currency: Option<u64>,
+    pub card_name: Option<String>,
+}
+
+/// What a card looks like to the terminal (read-card status information).
+#[derive(Clone, Debug, PartialEq, Default)]
+pub struct CardData {
+    /// no TLV container at all
+    pub no_tlv: bool,
+    /// UID as lower-case hex (what the terminal reports), None = absent
+    pub uid: Option<String>,
+    /// application list (tag 60 entries): (card_type hex, application_id hex)
+    pub subs: Vec<(Option<String>, Option<String>)>,
+    /// applications under tag 62
+    pub subs_on_card: Option<Vec<(Option<String>, Option<String>)>>,
+    pub card_type: Option<u8>,
+    pub ats: Option<String>,
+    pub sak: Option<u8>,
+    pub track_2: Option<String>,
+}
+
+#[derive(Clone, Debug, PartialEq)]
+pub struct ExPlan {
+    pub pre: Vec<Pre>,
+    pub result: ExResult,
+    pub status: Option<StatusFields>,
+    pub card: Option<CardData>,
+    /// read-card: stay silent this many virtual milliseconds before the final packet
+    pub silent_ms: u64,
+    /// pending query: report this dangling receipt (None = ledger decides); Some(None) = omit the receipt field
+    pub pending_override: Option<Option<u64>>,
+    /// reported by system info
+    pub reported_terminal_id: Option<String>,
+}
+
+impl Default for ExPlan {
+    fn default() -> Self {
+        ExPlan { pre: vec![], result: ExResult::Normal, status: None, card: None, silent_ms: 0, pending_override: None, reported_terminal_id: None }
+    }
+}
+
+#[derive(Clone, Copy, Debug, PartialEq, Eq, Hash, PartialOrd, Ord)]
+pub enum Cmd {
+    Registration,
+    SystemInfo,
+    SetTerminalId,
+    Initialization,
+    Reservation,
+    PartialReversal,
+    PendingQuery,
+    PreAuthReversal,
+    EndOfDay,
+    ReadCard,
+    Other,
+}
+
+#[derive(Clone, Copy, Debug, PartialEq, Eq, Hash, PartialOrd, Ord)]
+pub enum FaultKind {
+    Refuse,
+    /// connect never resolves
+    ConnectStall,
+    Close,
+    Garbage,
+    Nack,
+    Foreign,
+    Silence,
+    WrongSerial,
+}
+
+#[derive(Clone, Debug, PartialEq)]
+pub enum At {
+    /// the n-th terminal->client packet of the call (0-based, acks included)
+    Tx(usize),
+    /// every time this packet of this exchange kind is due (persistent): reply_idx 0 = the ack
+    Point(Cmd, usize),
+    /// the n-th connection attempt of the call
+    Connect(usize),
+    /// every connection attempt
+    AnyConnect,
+}
+
+#[derive(Clone, Debug, PartialEq)]
+pub struct FaultSpec {
+    pub call: usize,
+    pub at: At,
+    pub kind: FaultKind,
+}
+
+impl Plan {
+    pub fn push(&mut self, call: usize, cmd: Cmd, x: ExPlan) {
+        self.ex.entry((call, cmd)).or_default().push_back(x);
+    }
+}
+
+#[derive(Clone, Debug, Default)]
+pub struct Plan {
+    /// (call index, command kind) -> how the terminal answers the successive exchanges of that kind in that call
+    pub ex: BTreeMap<(usize, Cmd), VecDeque<ExPlan>>,
+    pub faults: Vec<FaultSpec>,
+    /// non-fault delays: virtual ms before every terminal->client packet
+    pub delay_ms: u64,
+    /// split every packet in two writes with this delay between them
+    pub split_delay_ms: Option<u64>,
+    /// serial in the other letter case
+    pub flip_serial_case: bool,
+}
+
+// ---------------------------------------------------------------- shared state and log
+
+#[derive(Clone, Debug, PartialEq)]
+pub enum Dir {
+    Open,
+    Rx,
+    Tx,
+    Fault(FaultKind),
+    RxAfterFault,
+    Eof,
+    ConnectRefused,
+    ConnectStalled,
+    Vetted,
+    Note(String),
+}
+
+#[derive(Clone, Debug)]
+pub struct ConnEv {
+    pub t_ms: u64,
+    pub call: usize,
+    pub conn: usize,
+    pub dir: Dir,
+    pub bytes: Vec<u8>,
+}
+
+#[derive(Clone, Debug)]
+pub struct Request {
+    pub t_ms: u64,
+    pub call: usize,
+    pub conn: usize,
+    pub cmd: Cmd,
+    pub key: String,
+    pub val: Val,
+    pub bytes: Vec<u8>,
+    /// index of the log entry
+    pub log_index: usize,
+}
+
+#[derive(Clone, Debug, PartialEq)]
+pub enum PreAuthState {
+    Open,
+    Committed,
+    Cancelled,
+}
+
+#[derive(Clone, Debug)]
+pub struct PreAuth {
+    pub receipt: u64,
+    pub token: String,
+    pub reserved: u128,
+    pub released: Option<u128>,
+    pub state: PreAuthState,
+}
+
+#[derive(Clone, Debug)]
+pub struct TxPoint {
+    pub call: usize,
+    pub tx_index: usize,
+    pub cmd: Cmd,
+    pub reply_idx: usize,
+    pub conn: usize,
+}
+
+pub struct Shared {
+    pub schema: Arc<Schema>,
+    pub serial: String,
+    pub terminal_id: String,
+    pub plan: Plan,
+    pub log: Vec<ConnEv>,
+    pub requests: Vec<Request>,
+    pub ledger: Vec<PreAuth>,
+    pub next_receipt: u64,
+    /// receipt the terminal reports as dangling on a pending query
+    pub dangling: Option<u64>,
+    pub next_conn: usize,
+    pub call: usize,
+    pub tx_in_call: usize,
+    pub connects_in_call: usize,
+    pub tx_points: Vec<TxPoint>,
+    pub last_status: Option<StatusFields>,
+    pub start: tokio::time::Instant,
+    pub trace_counter: u64,
+}
+
+pub type SharedRef = Arc<Mutex<Shared>>;
+
+impl Shared {
+    pub fn new(schema: Arc<Schema>, serial: &str, terminal_id: &str, plan: Plan) -> Shared {
+        Shared {
+            schema,
+            serial: serial.to_string(),
+            terminal_id: terminal_id.to_string(),
+            plan,
+            log: vec![],
+            requests: vec![],
+            ledger: vec![],
+            next_receipt: 231,
+            dangling: None,
+            next_conn: 0,
+            call: 0,
+            tx_in_call: 0,
+            connects_in_call: 0,
+            tx_points: vec![],
+            last_status: None,
+            start: tokio::time::Instant::now(),
+            trace_counter: 975,
+        }
+    }
+    fn now_ms(&self) -> u64 {
+        self.start.elapsed().as_millis() as u64
+    }
+    fn ev(&mut self, conn: usize, dir: Dir, bytes: &[u8]) -> usize {
+        let e = ConnEv { t_ms: self.now_ms(), call: self.call, conn, dir, bytes: bytes.to_vec() };
+        self.log.push(e);
+        self.log.len() - 1
+    }
+    /// The harness announces the start of the next public call.
+    pub fn begin_call(&mut self) {
+        self.call += 1;
+        self.tx_in_call = 0;
+        self.connects_in_call = 0;
+    }
+    fn take_explan(&mut self, cmd: Cmd) -> ExPlan {
+        let call = self.call;
+        self.plan.ex.get_mut(&(call, cmd)).and_then(|q| q.pop_front()).unwrap_or_default()
+    }
+}
+
+pub fn classify(key: &str, val: &Val) -> Cmd {
+    match key {
+        "packets::Registration" => Cmd::Registration,
+        "feig::packets::CVendFunctions" => Cmd::SystemInfo,
+        "packets::SetTerminalId" => Cmd::SetTerminalId,
+        "packets::Initialization" => Cmd::Initialization,
+        "packets::Reservation" => Cmd::Reservation,
+        "packets::PartialReversal" => {
+            if val.field("receipt_no").and_then(|r| r.num()) == Some(0xffff) {
+                Cmd::PendingQuery
+            } else {
+                Cmd::PartialReversal
+            }
+        }
+        "packets::PreAuthReversal" => Cmd::PreAuthReversal,
+        "packets::EndOfDay" => Cmd::EndOfDay,
+        "packets::ReadCard" => Cmd::ReadCard,
+        _ => Cmd::Other,
+    }
+}
+
+fn key_for_cf(c: u8, i: u8) -> Option<&'static str> {
+    Some(match (c, i) {
+        (0x06, 0x00) => "packets::Registration",
+        (0x0f, 0xa1) => "feig::packets::CVendFunctions",
+        (0x06, 0x1b) => "packets::SetTerminalId",
+        (0x06, 0x93) => "packets::Initialization",
+        (0x06, 0x22) => "packets::Reservation",
+        (0x06, 0x23) => "packets::PartialReversal",
+        (0x06, 0x25) => "packets::PreAuthReversal",
+        (0x06, 0x50) => "packets::EndOfDay",
+        (0x06, 0xc0) => "packets::ReadCard",
+        _ => return None,
+    })
+}
+
+// ---------------------------------------------------------------- the terminal side of an exchange
+
+pub const ACK: [u8; 3] = [0x80, 0x00, 0x00];
+
+fn hexs(s: &str) -> Val {
+    Val::Hex(s.to_string())
+}
+
+fn status_packet(e: &Enc0, st: &StatusFields, receipt: Option<u64>, card: Option<&CardData>) -> Vec<u8> {
+    let mut f: Vec<(&str, Val)> = vec![("result_code", Val::Num(0))];
+    if let Some(x) = st.amount {
+        f.push(("amount", Val::Num(x as u128)));
+    }
+    if let Some(x) = st.trace_number {
+        f.push(("trace_number", Val::Num(x as u128)));
+    }
+    if let Some(x) = st.date {
+        f.push(("date", Val::Num(x as u128)));
+    }
+    if let Some(x) = st.time {
+        f.push(("time", Val::Num(x as u128)));
+    }
+    if let Some(x) = st.terminal_id {
+        f.push(("terminal_id", Val::Num(x as u128)));
+    }
+    if let Some(x) = st.currency {
+        f.push(("currency", Val::Num(x as u128)));
+    }
+    if let Some(x) = &st.card_name {
+        f.push(("card_name", Val::Text(x.clone())));
+    }
+    if let Some(r) = receipt {
+        f.push(("receipt_no", Val::Num(r as u128)));
+    }
+    if let Some(c) = card {
+        if let Some(t) = &c.track_2 {
+            f.push(("track_2_data", hexs(t)));
+        }
+        if !c.no_tlv {
+            let subs_val = |list: &[(Option<String>, Option<String>)]| {
+                Val::List(
+                    list.iter()
+                        .map(|(ct, aid)| {
+                            let mut fs: Vec<(&str, Val)> = vec![];
+                            if let Some(ct) = ct {
+                                fs.push(("card_type", hexs(ct)));
+                            }
+                            if let Some(a) = aid {
+                                fs.push(("application_id", hexs(a)));
+                            }
+                            e.make("packets::tlv::Subs", &fs)
+                        })
+                        .collect(),
+                )
+            };
+            let mut tf: Vec<(&str, Val)> = vec![("subs", subs_val(&c.subs))];
+            if let Some(u) = &c.uid {
+                tf.push(("uuid", hexs(u)));
+            }
+            if let Some(x) = c.card_type {
+                tf.push(("card_type", Val::Num(x as u128)));
+            }
+            if let Some(x) = &c.ats {
+                tf.push(("ats", hexs(x)));
+            }
+            if let Some(x) = c.sak {
+                tf.push(("sak", Val::Num(x as u128)));
+            }
+            if let Some(list) = &c.subs_on_card {
+                tf.push(("subs_on_card", e.make("packets::tlv::SubsOnCard", &[("subs", subs_val(list))])));
+            }
+            f.push(("tlv", e.make("packets::tlv::StatusInformation", &tf)));
+        }
+    }
+    e.packet("packets::StatusInformation", &f)
+}
+
+fn pre_packets(e: &Enc0, pre: &[Pre], status: &StatusFields) -> Vec<Vec<u8>> {
+    pre.iter()
+        .map(|p| match p {
+            Pre::Intermediate { status, timeout } => e.packet("packets::IntermediateStatusInformation", &[("status", Val::Num(*status as u128)), ("timeout", Val::Num(*timeout as u128))]),
+            Pre::PrintLine(t) => e.packet("packets::PrintLine", &[("attribute", Val::Num(0)), ("text", Val::Text(t.clone()))]),
+            Pre::PrintTextBlock => e.packet("packets::PrintTextBlock", &[]),
+            Pre::PlainStatus => status_packet(e, status, None, None),
+            Pre::ReceiptStatus(r) => status_packet(e, status, Some(*r), None),
+        })
+        .collect()
+}
+
+/// The terminal's answer to one command: packets after the ack, and how long it stays silent before the last one.
+fn respond(sh: &mut Shared, cmd: Cmd, val: &Val) -> (Vec<Vec<u8>>, u64) {
+    let schema = sh.schema.clone();
+    let e = Enc0 { schema: &schema };
+    let xp = sh.take_explan(cmd);
+    let completion = |e: &Enc0| e.packet("packets::CompletionData", &[]);
+    let abort = |e: &Enc0, c: u8| e.packet("packets::Abort", &[("error", Val::Num(c as u128))]);
+    let default_status = StatusFields { amount: Some(2500), trace_number: Some(sh.trace_counter), date: Some(405), time: Some(225558), terminal_id: Some(52523535), currency: Some(978), card_name: Some("girocard".into()) };
+    let status = xp.status.clone().unwrap_or(default_status);
+    let mut out = pre_packets(&e, &xp.pre, &status);
+    match cmd {
+        Cmd::Registration => out.push(completion(&e)),
+        Cmd::SystemInfo => match xp.result {
+            ExResult::Abort(c) => out.push(abort(&e, c)),
+            _ => {
+                let serial = if sh.plan.flip_serial_case { flip_case(&sh.serial) } else { sh.serial.clone() };
+                let tid = xp.reported_terminal_id.clone().unwrap_or_else(|| sh.terminal_id.clone());
+                out.push(e.packet(
+                    "feig::packets::CVendFunctionsEnhancedSystemInformationCompletion",
+                    &[("device_id", Val::Text(serial)), ("sw_version", Val::Text("GER-APP-v2.0.9   ".into())), ("terminal_id", Val::Text(tid)), ("temperature", Val::Text("24.4".into()))],
+                ));
+            }
+        },
+        Cmd::SetTerminalId | Cmd::Initialization | Cmd::Other => match xp.result {
+            ExResult::Abort(c) => out.push(abort(&e, c)),
+            _ => out.push(completion(&e)),
+        },
+        Cmd::Reservation => match xp.result {
+            ExResult::Abort(c) => out.push(abort(&e, c)),
+            ExResult::NoStatus => out.push(completion(&e)),
+            ExResult::NoReceipt => {
+                out.push(status_packet(&e, &status, None, None));
+                out.push(completion(&e));
+            }
+            ExResult::Normal => {
+                let receipt = sh.next_receipt;
+                sh.next_receipt = if receipt >= 9999 { 1 } else { receipt + 1 };
+                sh.trace_counter += 1;
+                let token = val.path("tlv.bmp_data.bmp_data").and_then(|t| t.text()).unwrap_or("").to_string();
+                let reserved = val.field("amount").and_then(|a| a.num()).unwrap_or(0);
+                sh.ledger.push(PreAuth { receipt, token, reserved, released: None, state: PreAuthState::Open });
+                out.push(status_packet(&e, &status, Some(receipt), None));
+                out.push(completion(&e));
+            }
+        },
+        Cmd::PartialReversal => match xp.result {
+            ExResult::Abort(c) => out.push(e.packet("packets::PartialReversalAbort", &[("error", Val::Num(c as u128))])),
+            ref other => {
+                let receipt = val.field("receipt_no").and_then(|r| r.num()).unwrap_or(0) as u64;
+                let amount = val.field("amount").and_then(|a| a.num()).unwrap_or(0);
+                if let Some(p) = sh.ledger.iter_mut().rev().find(|p| p.receipt == receipt && p.state == PreAuthState::Open) {
+                    p.released = Some(amount);
+                    p.state = PreAuthState::Committed;
+                }
+                sh.trace_counter += 1;
+                if *other != ExResult::NoStatus {
+                    sh.last_status = Some(status.clone());
+                    out.push(status_packet(&e, &status, Some(receipt), None));
+                }
+                out.push(completion(&e));
+            }
+        },
+        Cmd::PendingQuery => {
+            // 2.10.1: abort B8 carrying the receipt number of a dangling pre-authorisation (FFFF: none)
+            let mut f: Vec<(&str, Val)> = vec![("error", Val::Num(0xb8))];
+            match xp.pending_override {
+                Some(None) => {}
+                Some(Some(r)) => f.push(("receipt_no", Val::Num(r as u128))),
+                None => f.push(("receipt_no", Val::Num(sh.dangling.map(|d| d as u128).unwrap_or(0xffff)))),
+            }
+            out.push(e.packet("packets::PartialReversalAbort", &f));
+        }
+        Cmd::PreAuthReversal => match xp.result {
+            ExResult::Abort(c) => out.push(e.packet("packets::PartialReversalAbort", &[("error", Val::Num(c as u128))])),
+            _ => {
+                let receipt = val.field("receipt_no").and_then(|r| r.num()).unwrap_or(0) as u64;
+                if let Some(p) = sh.ledger.iter_mut().rev().find(|p| p.receipt == receipt && p.state == PreAuthState::Open) {
+                    p.state = PreAuthState::Cancelled;
+                }
+                if sh.dangling == Some(receipt) {
+                    sh.dangling = None;
+                }
+                out.push(completion(&e));
+            }
+        },
+        Cmd::EndOfDay => match xp.result {
+            ExResult::Abort(c) => out.push(e.packet("packets::PartialReversalAbort", &[("error", Val::Num(c as u128))])),
+            _ => out.push(completion(&e)),
+        },
+        Cmd::ReadCard => match xp.result {
+            ExResult::Abort(c) => out.push(abort(&e, c)),
+            _ => {
+                let card = xp.card.clone().unwrap_or(CardData { uid: Some("000000000000081ca72f".into()), ..CardData::default() });
+                out.push(status_packet(&e, &StatusFields::default(), None, Some(&card)));
+            }
+        },
+    }
+    (out, xp.silent_ms)
+}
+
+pub fn flip_case(s: &str) -> String {
+    s.chars().map(|c| if c.is_ascii_lowercase() { c.to_ascii_uppercase() } else { c.to_ascii_lowercase() }).collect()
+}
+
+async fn read_frame(io: &mut DuplexStream) -> Option<Vec<u8>> {
+    let mut h = [0u8; 3];
+    io.read_exact(&mut h).await.ok()?;
+    let mut pkt = h.to_vec();
+    let len = if h[2] == 0xff {
+        let mut x = [0u8; 2];
+        io.read_exact(&mut x).await.ok()?;
+        pkt.extend(x);
+        u16::from_le_bytes(x) as usize
+    } else {
+        h[2] as usize
+    };
+    let mut body = vec![0u8; len];
+    io.read_exact(&mut body).await.ok()?;
+    pkt.extend(body);
+    Some(pkt)
+}
+
+/// After a fault the terminal is passive on this connection: it only records what the client still writes.
+async fn passive(shared: &SharedRef, io: &mut DuplexStream, conn: usize) {
+    let mut buf = [0u8; 256];
+    loop {
+        match io.read(&mut buf).await {
+            Ok(0) | Err(_) => {
+                shared.lock().unwrap().ev(conn, Dir::Eof, &[]);
+                return;
+            }
+            Ok(n) => {
+                shared.lock().unwrap().ev(conn, Dir::RxAfterFault, &buf[..n]);
+            }
+        }
+    }
+}
+
+enum TxAction {
+    Send,
+    Fault(FaultKind),
+}
+
+fn next_tx_action(sh: &mut Shared, cmd: Cmd, reply_idx: usize, conn: usize) -> TxAction {
+    let idx = sh.tx_in_call;
+    sh.tx_in_call += 1;
+    let call = sh.call;
+    sh.tx_points.push(TxPoint { call, tx_index: idx, cmd, reply_idx, conn });
+    for f in &sh.plan.faults {
+        if f.call != call {
+            continue;
+        }
+        let hit = match &f.at {
+            At::Tx(i) => *i == idx,
+            At::Point(c, r) => *c == cmd && *r == reply_idx,
+            _ => false,
+        };
+        if hit {
+            // a wrong serial is a property of the terminal behind a *new* connection: only during the handshake
+            if f.kind == FaultKind::WrongSerial && (cmd != Cmd::SystemInfo || reply_idx != 1 || sh.log.iter().any(|e| e.conn == conn && e.dir == Dir::Vetted)) {
+                continue;
+            }
+            return TxAction::Fault(f.kind);
+        }
+    }
+    TxAction::Send
+}
+
+async fn send(shared: &SharedRef, io: &mut DuplexStream, conn: usize, pkt: &[u8]) -> bool {
+    let (delay, split) = {
+        let sh = shared.lock().unwrap();
+        (sh.plan.delay_ms, sh.plan.split_delay_ms)
+    };
+    if delay > 0 {
+        tokio::time::sleep(std::time::Duration::from_millis(delay)).await;
+    }
+    let ok = if let (Some(d), true) = (split, pkt.len() > 1) {
+        let mid = pkt.len() / 2;
+        let a = io.write_all(&pkt[..mid]).await.is_ok();
+        tokio::time::sleep(std::time::Duration::from_millis(d)).await;
+        a && io.write_all(&pkt[mid..]).await.is_ok()
+    } else {
+        io.write_all(pkt).await.is_ok()
+    };
+    shared.lock().unwrap().ev(conn, Dir::Tx, pkt);
+    ok
+}
+
+async fn serve(shared: SharedRef, mut io: DuplexStream, conn: usize) {
+    loop {
+        let Some(pkt) = read_frame(&mut io).await else {
+            shared.lock().unwrap().ev(conn, Dir::Eof, &[]);
+            return;
+        };
+        let (script, silent_ms, cmd) = {
+            let mut sh = shared.lock().unwrap();
+            let li = sh.ev(conn, Dir::Rx, &pkt);
+            if pkt == ACK {
+                sh.ev(conn, Dir::Note("unexpected acknowledgement outside an exchange".into()), &[]);
+                continue;
+            }
+            let schema = sh.schema.clone();
+            let decoded = key_for_cf(pkt[0], pkt[1]).and_then(|key| Codec::new(&schema).decode(schema.get(key), &pkt).ok().filter(|(_, rest)| rest.is_empty()).map(|(v, _)| (key, v)));
+            match decoded {
+                None => {
+                    sh.ev(conn, Dir::Note("request not decodable by the reference codec".into()), &pkt);
+                    let t = sh.now_ms();
+                    let call = sh.call;
+                    sh.requests.push(Request { t_ms: t, call, conn, cmd: Cmd::Other, key: "?".into(), val: Val::Struct(vec![]), bytes: pkt.clone(), log_index: li });
+                    (vec![vec![0x84, 0x9a, 0x00]], 0, Cmd::Other)
+                }
+                Some((key, val)) => {
+                    let cmd = classify(key, &val);
+                    let t = sh.now_ms();
+                    let call = sh.call;
+                    sh.requests.push(Request { t_ms: t, call, conn, cmd, key: key.to_string(), val: val.clone(), bytes: pkt.clone(), log_index: li });
+                    let (replies, silent) = respond(&mut sh, cmd, &val);
+                    let mut script = vec![ACK.to_vec()];
+                    script.extend(replies);
+                    (script, silent, cmd)
+                }
+            }
+        };
+        let n = script.len();
+        for (i, p) in script.iter().enumerate() {
+            let action = next_tx_action(&mut shared.lock().unwrap(), cmd, i, conn);
+            match action {
+                TxAction::Send => {
+                    if i + 1 == n && silent_ms > 0 {
+                        tokio::time::sleep(std::time::Duration::from_millis(silent_ms)).await;
+                    }
+                    let bytes = p.clone();
+                    if !send(&shared, &mut io, conn, &bytes).await {
+                        shared.lock().unwrap().ev(conn, Dir::Eof, &[]);
+                        return;
+                    }
+                    if cmd == Cmd::SystemInfo && i == 1 && bytes.len() > 10 && bytes[0] == 0x06 && bytes[1] == 0x0f {
+                        shared.lock().unwrap().ev(conn, Dir::Vetted, &[]);
+                    }
+                }
+                TxAction::Fault(kind) => {
+                    shared.lock().unwrap().ev(conn, Dir::Fault(kind), &[]);
+                    match kind {
+                        FaultKind::Close => {
+                            drop(io);
+                            return;
+                        }
+                        FaultKind::Garbage => {
+                            let _ = io.write_all(&[0x13, 0x37, 0x02, 0xde, 0xad]).await;
+                            let _ = io.write_all(&[0x00, 0x00]).await;
+                        }
+                        FaultKind::Nack => {
+                            let _ = io.write_all(&[0x84, 0x66, 0x00]).await;
+                        }
+                        FaultKind::Foreign => {
+                            // a well-formed packet that no reply set of the client's commands contains
+                            let _ = io.write_all(&[0x04, 0x01, 0x0a, 0xaa, 0x00, 0x04, 0x05, 0x0c, 0x22, 0x55, 0x58]).await;
+                        }
+                        FaultKind::WrongSerial => {
+                            let pkt = {
+                                let sh = shared.lock().unwrap();
+                                let schema = sh.schema.clone();
+                                let e = Enc0 { schema: &schema };
+                                let other: String = sh.serial.chars().rev().collect::<String>();
+                                let other = if other.eq_ignore_ascii_case(&sh.serial) { "0BADBAD0".to_string() } else { other };
+                                e.packet(
+                                    "feig::packets::CVendFunctionsEnhancedSystemInformationCompletion",
+                                    &[("device_id", Val::Text(other)), ("sw_version", Val::Text("GER-APP-v2.0.9   ".into())), ("terminal_id", Val::Text(sh.terminal_id.clone())), ("temperature", Val::Text("24.4".into()))],
+                                )
+                            };
+                            let _ = io.write_all(&pkt).await;
+                            shared.lock().unwrap().ev(conn, Dir::Tx, &pkt);
+                        }
+                        FaultKind::Silence | FaultKind::Refuse | FaultKind::ConnectStall => {}
+                    }
+                    passive(&shared, &mut io, conn).await;
+                    return;
+                }
+            }
+            if i > 0 {
+                // every reply is answered by the client before the terminal goes on
+                match read_frame(&mut io).await {
+                    None => {
+                        shared.lock().unwrap().ev(conn, Dir::Eof, &[]);
+                        return;
+                    }
+                    Some(a) => {
+                        let mut sh = shared.lock().unwrap();
+                        sh.ev(conn, Dir::Rx, &a);
+                        if a != ACK {
+                            sh.ev(conn, Dir::Note("reply was answered with something else than an acknowledgement".into()), &a);
+                        }
+                    }
+                }
+            }
+        }
+    }
+}
+
+// ---------------------------------------------------------------- connector
+
+pub struct SimConnector {
+    pub shared: SharedRef,
+}
+
+impl Connector for SimConnector {
+    fn connect(&self, _addr: SocketAddrV4) -> ConnectFuture {
+        let shared = self.shared.clone();
+        Box::pin(async move {
+            let (fault, conn) = {
+                let mut sh = shared.lock().unwrap();
+                let ordinal = sh.connects_in_call;
+                sh.connects_in_call += 1;
+                let call = sh.call;
+                let fault = sh.plan.faults.iter().find(|f| f.call == call && (f.at == At::Connect(ordinal) || f.at == At::AnyConnect)).map(|f| f.kind);
+                let conn = sh.next_conn;
+                sh.next_conn += 1;
+                (fault, conn)
+            };
+            match fault {
+                Some(FaultKind::Refuse) => {
+                    shared.lock().unwrap().ev(conn, Dir::ConnectRefused, &[]);
+                    Err(std::io::Error::new(std::io::ErrorKind::ConnectionRefused, "simulated terminal refuses the connection"))
+                }
+                Some(FaultKind::ConnectStall) => {
+                    shared.lock().unwrap().ev(conn, Dir::ConnectStalled, &[]);
+                    std::future::pending::<()>().await;
+                    unreachable!()
+                }
+                _ => {
+                    let (client, server) = tokio::io::duplex(1 << 17);
+                    shared.lock().unwrap().ev(conn, Dir::Open, &[]);
+                    tokio::spawn(serve(shared.clone(), server, conn));
+                    let b: Box<dyn VerifIo> = Box::new(client);
+                    Ok(b)
+                }
+            }
+        })
+    }
+}
+
+static NEXT_IP: std::sync::atomic::AtomicU32 = std::sync::atomic::AtomicU32::new(0x0a00_0001);
+
+pub fn fresh_ip() -> Ipv4Addr {
+    Ipv4Addr::from(NEXT_IP.fetch_add(1, std::sync::atomic::Ordering::Relaxed))
+}
